@@ -12,6 +12,59 @@ import (
 	"seehuhn.de/go/pdf/verif/internal/vt"
 )
 
+// plainOnly keeps the programs whose operations are all plain decodes.
+func plainOnly(progs []Program, kinds ...string) []Program {
+	var out []Program
+	for _, p := range progs {
+		ok := true
+		for _, w := range p.Workers {
+			for _, o := range w {
+				found := false
+				for _, k := range kinds {
+					found = found || o.Kind == k
+				}
+				ok = ok && found
+			}
+		}
+		if ok {
+			out = append(out, p)
+		}
+	}
+	return out
+}
+
+// enum3Family is the 3-worker family of the tier.  Quick: one operation per
+// worker over single and failing, restricted to the programs without a plain
+// ViewB decode (the one-type family) and those made of DecodeExclusive calls
+// of BOTH types on the reference.  Thorough: one operation per worker, full
+// alphabets, over all four topologies, plus the programs with 4 operations in
+// all (one worker runs two) over single with DexA/DexB/DecB.  (Three workers
+// with a fourth operation on failing, chain or mutual have 3*10^7 to 10^9
+// schedules; they are left to the sampling job.)
+func enum3Family() ([]Program, string) {
+	if !vt.Thorough() {
+		var progs []Program
+		for _, p := range family(3, 1, 3, "single", "failing") {
+			kinds := map[string]bool{}
+			for _, w := range p.Workers {
+				kinds[w[0].Kind] = true
+			}
+			oneType := !kinds["DecB"] && !kinds["DexB"]
+			if oneType || len(kinds) == 2 && kinds["DexA"] && kinds["DexB"] {
+				progs = append(progs, p)
+			}
+		}
+		return progs, "3 workers x 1 operation over the topologies single and failing that either use no plain ViewB decode or consist of DecodeExclusive calls of both types"
+	}
+	progs := family(3, 1, 3)
+	for _, p := range plainOnly(family(3, 2, 4, "single"), "DexA", "DexB", "DecB") {
+		if len(p.Workers[0])+len(p.Workers[1])+len(p.Workers[2]) == 4 {
+			progs = append(progs, p)
+		}
+	}
+	return progs, "3 workers x 1 operation over single/failing/chain/mutual and 3 workers with 4 operations in all (DexA/DexB/DecB) over single"
+}
+
 // family lists every program with nw workers over every topology: each worker
 // runs 1..maxOps operations of the topology's alphabet, at most maxTotal
 // operations in all.  Workers are interchangeable, so only non-decreasing
@@ -222,29 +275,11 @@ func TestEnum2(t *testing.T) {
 	st.Note(reductionNote)
 }
 
-// TestEnum3 enumerates all schedules of 3-worker programs.  Quick tier: one
-// operation per worker over the topologies single and failing.  Thorough tier:
-// one operation per worker over all four topologies, and all programs with at
-// most 4 operations in all (one worker runs two) over single and failing.
-// (Three workers on the chain or the mutual topology with a fourth operation
-// have 10^8 to 10^9 schedules; they are left to the sampling job.)
+// TestEnum3 enumerates all schedules of the 3-worker programs of enum3Family.
 func TestEnum3(t *testing.T) {
 	defer singleP()()
 	st := vt.NewStats(property, "enum3")
-	var progs []Program
-	var what string
-	if vt.Thorough() {
-		progs = family(3, 1, 3)
-		for _, p := range family(3, 2, 4, "single", "failing") {
-			if len(p.Workers[0])+len(p.Workers[1])+len(p.Workers[2]) == 4 {
-				progs = append(progs, p)
-			}
-		}
-		what = "3 workers x 1 operation over single/failing/chain/mutual and 3 workers with 4 operations in all over single/failing"
-	} else {
-		progs = family(3, 1, 3, "single", "failing")
-		what = "3 workers x 1 operation over the topologies single/failing"
-	}
+	progs, what := enum3Family()
 	ok, complete := enumerate(t, st, progs, false, 6)
 	if ok && complete {
 		st.SetExhaustive(fmt.Sprintf("all schedules (at the decision points) of all %d programs of %s", len(progs), what))
@@ -344,8 +379,9 @@ var sampleProp = &vt.Prop[Case]{
 		for w := 0; w < nw; w++ {
 			n := rapid.IntRange(1, 2).Draw(t, "nops")
 			var ops []Op
+			all := append(append([]Op(nil), tp.ops...), tp.more...)
 			for i := 0; i < n; i++ {
-				ops = append(ops, tp.ops[rapid.IntRange(0, len(tp.ops)-1).Draw(t, "op")])
+				ops = append(ops, all[rapid.IntRange(0, len(all)-1).Draw(t, "op")])
 			}
 			p.Workers = append(p.Workers, ops)
 		}
